@@ -125,19 +125,22 @@ pub fn gen_c01(tier: &str, r: u64, ex: u64, rng: &mut Rng) -> Value {
             set_flav(p, f);
         }
         steps.extend(pre.clone());
-        for p in pre.iter_mut() {
-            set_flav(p, flav(rng));
+        // the repetition runs in the same process half of the time (state kept inside one process matters then)
+        if rng.chance(1, 2) {
+            for p in pre.iter_mut() {
+                set_flav(p, flav(rng));
+            }
         }
         repeat_after = pre;
     }
     let ndmg = if rng.chance(1, 5) { 2 } else { 1 };
     for _ in 0..ndmg {
         let d = match rng.below(10) {
-            0 => json!({"k":"env","act":"flip","content":c0,"byte":rng.below(len.max(1)),"bit":rng.below(8)}),
+            0 => json!({"k":"env","act":"flip","content":c0,"byte":rng.below(len.max(1)),"bit":rng.below(8),"keep_mtime":rng.chance(1,2)}),
             1 => json!({"k":"env","act":"truncate","content":c0,"len":rng.below(len.max(1))}),
             2 => json!({"k":"env","act":"extend","content":c0,"n":rng.range(1, 70),"seed":rng.below(1000)}),
             3 => json!({"k":"env","act":"truncate","content":c0,"len":0}),
-            4 => json!({"k":"env","act":"garble","content":c0,"off":rng.below(len.max(1)),"n":rng.range(1, 64),"seed":rng.below(1000)}),
+            4 => json!({"k":"env","act":"garble","content":c0,"off":rng.below(len.max(1)),"n":rng.range(1, 64),"seed":rng.below(1000),"keep_mtime":rng.chance(1,2)}),
             5 => json!({"k":"env","act":"replace_with","content":c0,"target_content":c1}),
             6 => json!({"k":"env","act":"swap","content":c0,"target_content":c1}),
             7 => json!({"k":"env","act":"symlink_to","content":c0,"target_content":c1}),
